@@ -265,7 +265,7 @@ class RuleFieldDescriptor:
 
     def __from_json_object__(json_object):
         target_value: TargetValue
-        if json_object['compression_decompression_action'] == CompressionDecompressionAction.MAPPING_SENT:
+        if isinstance(json_object['target_value'], list):
             target_value = MatchMapping.__from_json_object__(json_object=json_object['target_value'])
         else:
             target_value = Buffer.__from_json_object__(json_object=json_object['target_value'])
